@@ -91,6 +91,24 @@ def gen_bw(rng, idx):
     return pats
 
 
+def gen_bw_edge(rng, idx):
+    """Tiny seeded sets over bytes at the edges of a 256-slot block (0x00.., ..0xFF): 2-4 patterns of
+    length 1-2.  Cheap to validate (T1 ~5 s) and they move BASE values onto the slots whose CHECK
+    fields only the sanitising pass protects."""
+    edge = [0x00, 0x01, 0x02, 0x03, 0xFC, 0xFD, 0xFE, 0xFF]
+    n = rng.randint(2, 4)
+    pats = set()
+    tries = 0
+    while len(pats) < n and tries < 100:
+        tries += 1
+        ln = rng.randint(1, 2)
+        pats.add(bytes(rng.choice(edge) if rng.random() < 0.8 else rng.randrange(256) for _ in range(ln)))
+    pats.add(bytes([0x00]))  # a pattern that is only ever reached through fail links / the root
+    pats = sorted(pats)
+    rng.shuffle(pats)
+    return pats
+
+
 def gen_bw_big(rng, nblocks_min=3):
     """Seeded multi-block set: wide fan-outs over random bytes so that several 256-slot blocks
     are needed, with NUL/0x01/0xFF among the labels."""
